@@ -99,10 +99,22 @@ if __name__ == "__main__":
     # usage: mutants.py <name|all> [props...]
     names = sys.argv[1]
     props = sys.argv[2:] or None
+    if props == ["ALL"]:
+        props = list(ALL_PROPS)
+    as_json = None
+    if props and props[-1].endswith(".json"):
+        as_json = props.pop()
+        props = props or None
+        if props == ["ALL"]:
+            props = list(ALL_PROPS)
     ms = corpus() if names == "all" else [load(n) for n in names.split(",")]
+    results_all = []
     with ThreadPoolExecutor(max_workers=8) as ex:
         for r in ex.map(lambda m: run_mutant(m, props if props else (ALL_PROPS if names != "all" else None)), ms):
             print("%-40s %s caught=%s missed=%s" % (r["name"], r["status"][:200], {k: len(v) for k, v in r["caught"].items()}, r["missed"]))
             for k, v in r["caught"].items():
                 for key in v[:4]:
                     print("      %s %s" % (k, key))
+            results_all.append(r)
+    if as_json:
+        json.dump(results_all, open(as_json, "w"), indent=1)
